@@ -10,10 +10,6 @@ namespace Rml.Emit
 open Rml Rml.Bytes Rml.Chunk Rml.SerHist Rml.SerSpec Rml.Msgs Rml.Sess
 open Rml.C19 (SerOp applyOp)
 
-def runAll (s : Ser.State) : List SerOp → Ser.State
-  | [] => s
-  | op :: rest => runAll (after s op) rest
-
 theorem runAll_append (a b : List SerOp) : ∀ s, runAll s (a ++ b) = runAll (runAll s a) b := by
   induction a with
   | nil => intro s; rfl
@@ -67,7 +63,8 @@ theorem Emits.reads {ser : Ser.State} {xs : List (Ser.Packet × Msg)} (h : Emits
     Spec.Chunk.decodeSeq (wire (keepSel mask xs)) = some (msgs (keepSel mask xs)) := by
   obtain ⟨ops, w, t, _⟩ := h
   rw [← t]
-  exact reads_decodeSeq (hist_reads ops {} {} mask SR_init w)
+  obtain ⟨sE, hr, _⟩ := hist_reads ops {} {} mask SR_init w
+  exact reads_decodeSeq hr
 
 /-- messages a session may hand to `sendMsg`: every variant except a raw SetChunkSize (sessions use the
     serializer's setter) and pass-through messages of unknown type -/
